@@ -41,6 +41,8 @@ package scheduler
 //@             forall k *invocation :: (k in t.operations) ==> t.operations[k].invocation.sizeClassQueue == largestSCQ
 //@   at call schedule#2 assert retried-operations-are-homed-in-the-largest-size-class:
 //@             forall k *invocation :: (k in t.operations) ==> t.operations[k].invocation.sizeClassQueue == largestSCQ
+//@   at call registerExecutingStageFinished#1 assert task-and-worker-are-detached-from-each-other:
+//@             t.currentWorker == nil && (old(t.currentWorker) != nil ==> old(t.currentWorker).currentTask == nil)
 //@   ensures completing-a-queued-task-takes-it-out-of-the-queue:
 //@             old(t.executeResponse) == nil && old(t.currentWorker) == nil ==> unqueued(t) == 1
 //@   requires executeResponse != nil
@@ -282,3 +284,24 @@ package scheduler
 //@   at call incrementInvocationsCreatedTotal#1 assert new-invocations-belong-to-this-queue: iChild.sizeClassQueue == scq && iChild.parent == i
 //@   ensures_assumed r0.sizeClassQueue == scq -- representation invariant of the invocation tree, not proved: the root belongs to its queue (addSizeClassQueue, proved) and a child belongs to its parent's queue (children are only created here: new-invocations-belong-to-this-queue, proved); carrying that over the whole tree needs an ownership invariant on the children maps that the engine cannot state cheaply
 // (the loop invariant and the assertion that use this are part of the contract of (*task).complete above)
+
+// ---------------------------------------------------------------------------
+// A worker is only told to run the task that is assigned to it (C01)
+//
+// Synchronize re-issues the assigned task (counting the retry), gives the
+// task up after the configured number of retries, and only asks the queue for
+// new work once the worker holds no task.
+//@ func (*worker).isRunningCorrectTask
+//@   props C01
+//@   ensures a-worker-without-a-task-runs-nothing-correct: w.currentTask == nil ==> !r0
+//@ func (*worker).getCurrentOrNextTask
+//@   props C01
+//@   assume w.currentTask != nil ==> w.currentTask.currentWorker == w && w.currentTask.executeResponse == nil -- representation invariant of the scheduler: a worker's task points back at the worker and is not completed (established by assignQueuedTask/assignUnqueuedTask: held-by-exactly-this-worker, proved; complete detaches both sides: proved)
+//@   ensures the-assigned-task-is-reissued-and-the-retry-counted:
+//@             old(w.currentTask) != nil && old(w.currentTask.retryCount) < bq.configuration.WorkerTaskRetryCount ==>
+//@             r1 == nil && w.currentTask == old(w.currentTask) && w.currentTask.retryCount == old(w.currentTask.retryCount) + 1
+//@   at call complete#1 assert gives-up-only-the-own-task-and-only-after-the-retries: arg0 == w.currentTask && arg0.retryCount >= bq.configuration.WorkerTaskRetryCount && !arg3
+//@ func (*worker).completeTask
+//@   props C01
+//@   requires executeResponse != nil
+//@   at call complete#1 assert completes-the-task-the-worker-was-given: arg0 == w.currentTask && arg3
